@@ -4,6 +4,7 @@ import (
 	"bytes"
 	"encoding/json"
 	"fmt"
+	"os"
 	"regexp"
 	"runtime"
 	"sort"
@@ -1697,4 +1698,49 @@ func representable(name string, live []string) bool {
 		}
 	}
 	return true
+}
+
+// hangConfirm is called when a request got no answer within its watchdog (checks whose emulator runs in this process).
+// A deadline alone is no verdict on a loaded machine: two goroutine dumps are taken 3 s apart; if handler goroutines
+// of the emulator are blocked (not running, not in I/O) in the same state and stack in both, the request is reported
+// by the caller as unanswered (a violation of whatever the caller was checking: every request of these properties must
+// be answered); otherwise the run ends INCONCLUSIVE at once.
+func hangConfirm(run *common.Run, desc string) {
+	snapshot := func() map[string]string {
+		buf := make([]byte, 16<<20)
+		buf = buf[:runtime.Stack(buf, true)]
+		out := map[string]string{}
+		for _, g := range strings.Split(string(buf), "\n\n") {
+			head, _, _ := strings.Cut(g, "\n")
+			id, state, ok := strings.Cut(strings.TrimPrefix(head, "goroutine "), " [")
+			if !ok || !strings.Contains(g, "gcsemu.(*GcsEmu).") {
+				continue
+			}
+			if strings.HasPrefix(state, "running") || strings.HasPrefix(state, "runnable") || strings.HasPrefix(state, "syscall") || strings.HasPrefix(state, "IO wait") {
+				continue
+			}
+			state, _, _ = strings.Cut(state, ",")
+			state = strings.TrimSuffix(state, "]:")
+			lines := strings.Split(g, "\n")
+			out[id] = state + "\n" + strings.Join(lines[1:min(len(lines), 14)], "\n")
+		}
+		return out
+	}
+	first := snapshot()
+	time.Sleep(3 * time.Second)
+	second := snapshot()
+	blocked := 0
+	for id, a := range first {
+		if second[id] == a {
+			blocked++
+		}
+	}
+	run.Count("unanswered_requests_examined_with_goroutine_dumps", 1)
+	if blocked > 0 {
+		run.Count("unanswered_requests_with_blocked_emulator_handlers", 1)
+		return
+	}
+	run.Blind(fmt.Sprintf("a request got no answer within its watchdog but no handler of the emulator in this process is blocked (slow machine?): %s", desc))
+	run.Finish()
+	os.Exit(4)
 }
